@@ -51,13 +51,26 @@ class FlowBook(object):
 
     def __init__(self, c):
         self.c = c
+        self.keyed = False       # True: flows are named by (f at the initial point, y0, t0) -- same ODE+IC => same flow
         self.flows = []          # list of dict(n, t0, y0, fns)
         self.probes = []         # (kind, t, y, value)
         self.integrators = []
 
-    def start(self, y0, t0):
+    def start(self, y0, t0, key=None):
         y0 = [v for v in np.asarray(y0, dtype=object).ravel()]
         n = len(y0)
+        if key is not None and self.keyed:
+            import hashlib
+            hk = hashlib.sha1((key + "|" + "|".join(str(to_z3(v)) for v in y0) + "|" + str(to_z3(t0))).encode()).hexdigest()[:10]
+            for k, fl in enumerate(self.flows):
+                if fl.get("key") == hk:
+                    return k
+            k = len(self.flows)
+            fns = [z3.Function("Xk%s_%d" % (hk, i), sym.R, sym.R) for i in range(n)]
+            self.flows.append({"n": n, "t0": t0, "y0": y0, "fns": fns, "key": hk})
+            for i in range(n):
+                self.c._assume_z(fns[i](_real(to_z3(t0))) == _real(to_z3(y0[i])), auto=True)
+            return k
         # continuation of an existing flow?
         for k, fl in enumerate(self.flows):
             if fl["n"] != n:
@@ -86,6 +99,13 @@ class FlowBook(object):
             self.c.uf_apps.append(term)
             out[i] = Sym(term)
         return out
+
+
+def _probe_key(val):
+    try:
+        return "|".join(str(to_z3(v)) if isinstance(v, Sym) else repr(v) for v in np.asarray(val, dtype=object).ravel())
+    except Exception:
+        return None
 
 
 class StubOde(object):
@@ -122,14 +142,11 @@ class StubOde(object):
     def set_initial_value(self, y, t=0.0):
         self.t = t
         self._y0 = y
-        self._flow = StubOde.book.start(y, t)
         self._cur = np.array(np.asarray(y, dtype=object).ravel(), dtype=object)
         # one probe of the callables at the initial point: which function, which order
-        try:
-            val = self.f(t, self._cur.copy(), *self.f_params)
-            StubOde.book.probes.append(("f", self, t, self._cur.copy(), val))
-        except sym.Abort:
-            raise
+        val = self.f(t, self._cur.copy(), *self.f_params)
+        StubOde.book.probes.append(("f", self, t, self._cur.copy(), val))
+        self._flow = StubOde.book.start(y, t, key=_probe_key(val))
         if self.jac is not None and self._name not in ("dopri5", "dop853"):
             val = self.jac(t, self._cur.copy(), *self.jac_params)
             StubOde.book.probes.append(("jac", self, t, self._cur.copy(), val))
@@ -173,9 +190,9 @@ class StubOdeint(object):
                  ml=None, mu=None, mxstep=0, tfirst=False, **kw):
         t = list(np.asarray(t, dtype=object).ravel())
         y0v = np.array(np.asarray(y0, dtype=object).ravel(), dtype=object)
-        k = self.book.start(y0v, t[0])
         val = func(y0v.copy(), t[0], *args)
         self.book.probes.append(("f_odeint", self, t[0], y0v.copy(), val))
+        k = self.book.start(y0v, t[0], key=_probe_key(val))
         if Dfun is not None:
             jv = Dfun(y0v.copy(), t[0], *args)
             self.book.probes.append(("jac_odeint", self, t[0], y0v.copy(), jv))
@@ -230,12 +247,13 @@ def patched(*triples):
 
 
 @contextlib.contextmanager
-def integrator_stubs(c, ascending_eig=True):
+def integrator_stubs(c, ascending_eig=True, keyed=False):
     """install ode / odeint / eig stubs for one symbolic path"""
     import scipy.integrate
     import numpy.linalg
     from pygom.model import ode_utils
     book = FlowBook(c)
+    book.keyed = keyed
     StubOde.book = book
     StubOde.policy = measure_buffer_policy()
     odeint = StubOdeint(book)
